@@ -196,8 +196,21 @@ class Installed:
                 return
             return real_join(worker, timeout)
 
+        real_is_alive = threading.Thread.is_alive
+
+        def is_alive(worker):
+            # liveness of a scheduled worker in LOGICAL time: dead from the step at which its run() returned (the real thread needs a
+            # few more microseconds, which would make the answer depend on the operating system), and asking is a scheduling point
+            st = worker.__dict__.get("_vf_state")
+            if st is not None and sched.managed():
+                sched.yield_point("is_alive")
+                return st.status != DONE
+            return real_is_alive(worker)
+
+        self.orig_is_alive = W.Worker.__dict__.get("is_alive")
         W.Worker.start = start
         W.Worker.join = join
+        W.Worker.is_alive = is_alive
         self.gc_was = gc.isenabled()
         gc.disable()
         if self.line_p > 0:
@@ -330,7 +343,7 @@ class Installed:
                 mon.free_tool_id(self.tool)
             for mod, name, orig in reversed(getattr(self, "saved_module_globals", [])):
                 setattr(mod, name, orig)
-            for attr, orig in (("start", self.orig_start), ("join", self.orig_join)):
+            for attr, orig in (("start", self.orig_start), ("join", self.orig_join), ("is_alive", getattr(self, "orig_is_alive", None))):
                 if orig is None:
                     try:
                         delattr(W.Worker, attr)
@@ -374,7 +387,7 @@ def run_scheduled(script, strategy, step_cap=20000, line_p=0.0, line_rng=None, w
             for st in sched.states:
                 if st.thread is not threading.current_thread():
                     threading.Thread.join(st.thread, 10)
-                    if st.thread.is_alive():
+                    if threading.Thread.is_alive(st.thread):
                         info.setdefault("os_threads_alive", []).append(st.name)
         info["lines_seen"] = len(inst.lines_seen)
         info["line_preemptions"] = inst.preemptions
